@@ -443,6 +443,9 @@ class SamplerCore:
 
             pool = Pool(self.config.pool)
             return pool.map
+        elif isinstance(self.config.pool, int):
+            # pool=1 (or less): a single process, evaluate serially
+            return map
         else:
             return self.config.pool.map
 
